@@ -12,6 +12,7 @@ import asyncio
 import glob
 import json
 import os
+import re
 import shutil
 import sys
 import tempfile
@@ -224,6 +225,74 @@ def check_unicode(case) -> Res:
     return r
 
 
+
+# ------------------------------------------------------------------ character level
+CHARS = ["a", "Z", "_", "1", "-", ".", "<", ">", ":", '"', "`", "[", "]", "{", "}", ",", " ", "\n", "\t", "#", "§", "$", "@", "+", "~", "|",
+         "&", "=", "/", "\\", "%", "→", "∧", "e\u0301", "\U0001F600", "(", ")", "*", "'", ";"]
+
+
+def check_chars(seq) -> Res:
+    return read_all("".join(seq), list(seq))
+
+
+def cut_space():
+    """every character-granular prefix and suffix of every pool document (truncated / mid-token starts)."""
+    from ..pool import DOCS
+    docs = dict(DOCS)
+    docs["annotations"] = "K::NEVER<x>\nL::A<b,c>\nM::[P<q>∧REQ→§SELF]\nN::x<>\n"
+    cases = []
+    for name in sorted(docs):
+        for i in range(len(docs[name]) + 1):
+            cases.append((name, "prefix", i))
+            cases.append((name, "suffix", i))
+    return cases, docs
+
+
+_CUT = {}
+
+
+def check_cut(case) -> Res:
+    name, how, i = case
+    if not _CUT:
+        _CUT.update(cut_space()[1])
+    t = _CUT[name]
+    return read_all(t[:i] if how == "prefix" else t[i:], list(case))
+
+
+def special_words():
+    """identifiers the implementation special-cases: every upper-case word constant in the reader/emitter/tool sources."""
+    import ast as _ast
+    import octave_mcp
+    root = os.path.dirname(octave_mcp.__file__)
+    words = set()
+    for rel in ("core/parser.py", "core/lexer.py", "core/emitter.py", "core/validator.py", "core/holographic.py", "core/constraints.py",
+                "mcp/write.py", "mcp/validate.py"):
+        with open(os.path.join(root, rel), encoding="utf-8") as f:
+            tree = _ast.parse(f.read())
+        for n in _ast.walk(tree):
+            if isinstance(n, _ast.Constant) and isinstance(n.value, str) and re.fullmatch(r"[A-Z][A-Z0-9_]+", n.value) \
+                    and not re.match(r"[EW](_|\d)", n.value):
+                words.add(n.value)
+    return sorted(words)
+
+
+KW_TEMPLATES = ["{W}::{V}\n", "K::[{W}::{V}]\n", "K::[a,{W}::{V},b]\n", "{W}:\n  X::{V}\n", "K::{W}[{V}]\n", "K::[{W}[{V}]∧REQ]\n",
+                "K::{W}<{V}>\n", "§1::{W}\n  X::{V}\n", "==={W}===\nX::{V}\n===END===\n", "===D===\nMETA:\n  {W}::{V}\n---\nA::1\n===END===\n",
+                "K::{W} {V}\n", "K::[{V}∧{W}]\n", "K::[{V}→§{W}]\n"]
+KW_VALUES = ["a", '"q s"', "1", "[fix,later]", '["^a"∧REQ→§SELF]', "[k::v]", "true", "null", "", "\n```\nz\n```", "a->b", "$V"]
+KW_TOOL_WORDS = ["PATTERN", "REGEX", "ENUM", "TYPE", "NEVER", "META", "DELETE", "CONTRACT", "GRAMMAR", "END", "NULL", "TRUE"]
+
+
+def check_kw(case) -> Res:
+    w, tpl, v, tools = case
+    text = tpl.replace("{W}", w).replace("{V}", v)
+    r = read_all(text, [w, tpl, v])
+    if tools:
+        r2 = check_tools_text(text, None)
+        r.violations += r2.violations
+        r.transitions += r2.transitions
+    return r
+
 # ------------------------------------------------------------------ packaged-file mutations
 def packaged_files():
     import octave_mcp
@@ -406,6 +475,12 @@ def run(ctx):
         # second 30-symbol alphabet (value-token heavy) at the same depth
         alpha2 = T + ["\n", " "]
         ctx.explore("readers.seq.values", Sequences(alpha2[:30] if False else T, L), check_seq, chunk=5000)
+    ctx.explore("readers.chars", Sequences(CHARS, 3 if ctx.quick else 4), check_chars, chunk=5000)
+    ctx.explore("readers.cuts", cut_space()[0], check_cut, chunk=200)
+    words = special_words()
+    ctx.coverage["bounds"]["special_words"] = words
+    kw = [(w, t, v, (w in KW_TOOL_WORDS) or not ctx.quick) for w in words + [x for x in KW_TOOL_WORDS if x not in words] for t in KW_TEMPLATES for v in KW_VALUES]
+    ctx.explore("keywords", kw, check_kw, chunk=20)
     ctx.explore("tools.seq", Sequences(T20, Lt), check_tools_seq, chunk=20)
     from ..pool import DOCS
     ctx.explore("tools.pool", [[k] for k in sorted(DOCS)], check_tools_pool, chunk=1)
@@ -434,6 +509,12 @@ def replay(ctx, rp):
                     if v["case"]["tool"] == case["tool"] and v["case"]["args"] == case["args"]]
         if sub == "unicode.contexts":
             return read_all(case[1].replace("{c}", chr(int(case[0][2:].rstrip("+"), 16))), case).violations
+        if sub == "readers.chars":
+            return check_chars(case).violations
+        if sub == "readers.cuts":
+            return check_cut(tuple(case)).violations
+        if sub == "keywords":
+            return check_kw((case[0], case[1], case[2], True)).violations
         if sub == "mutations.packaged":
             return check_mutation(tuple(case)).violations
         if sub == "scaling":
